@@ -860,6 +860,14 @@ def drainIter (cx : Ctx) (r : Nat) (writes : Bool) (tag : String) : List (Nat ×
       drainIter cx r writes tag ps (k + 1) w' (outI ++ [sI]) (outS ++ [sS]) (evI ++ eI) (evS ++ eS) (made ++ md)
     else drainIter cx r writes tag ps (k + 1) w (outI ++ [sI]) (outS ++ [sS]) evI evS made
 
+/-- like `drainIter` with one tag per visit -/
+def drainIterT (cx : Ctx) (r : Nat) (writes : Bool) : List ((Nat × Nat) × String) → Nat → World → List String → List String → Ev → Ev → List Nat →
+    World × List String × List String × Ev × Ev × List Nat
+  | [], _, w, outI, outS, evI, evS, made => (w, outI, outS, evI, evS, made)
+  | ((pI, pS), tag) :: ps, k, w, outI, outS, evI, evS, made =>
+    let (w', oI, oS, eI, eS, md) := drainIter cx r writes tag [(pI, pS)] k w [] [] {} {} []
+    drainIterT cx r writes ps (k + 1) w' (outI ++ oI) (outS ++ oS) (evI ++ eI) (evS ++ eS) (made ++ md)
+
 /-- drive an iterator on both sides step by step (`F` next, `B` next_back, `L` len, `H` size_hint);
     an element yielded by a mutable iterator is written by the test callback -/
 def iterDrive (cx : Ctx) (r : Nat) (writes : Bool) : List Char → View.Win → View.Win → Nat → World → List String → List String → Ev → Ev → List Nat →
@@ -873,7 +881,14 @@ def iterDrive (cx : Ctx) (r : Nat) (writes : Bool) : List Char → View.Win → 
     let rowStr (cols : List (List Nat)) (p : Nat) : String := fmtNats (cols.map (fun l => l.getD p 0))
     let c0 := w.regs.getD r sh.empty
     let r0 := w.rows.getD r []
-    if c == 'X' || c == 'Y' || c == 'V' then
+    if c == 'W' then
+      -- `.rev()` stepped alternately from its front (= the original's back) and its back (= the original's front)
+      let alt (v : View.Win) : List Nat :=
+        let ps := List.range' v.s v.l
+        (List.range v.l).map (fun t => if t % 2 == 0 then ps.getD (v.l - 1 - t / 2) 0 else ps.getD (t / 2) 0)
+      let tagsOf (n : Nat) : List String := (List.range n).map (fun t => if t % 2 == 0 then "B" else "F")
+      drainIterT cx r writes (((alt vI).zip (alt vS)).zip (tagsOf vI.l)) k w outI outS evI evS made
+    else if c == 'X' || c == 'Y' || c == 'V' then
       -- `X` fold (front to back); `Y` rfold, `V` rev().for_each (back to front); the iterator is consumed, later steps are ignored
       let fwd := c == 'X'
       let posI := if fwd then List.range' vI.s vI.l else (List.range' vI.s vI.l).reverse
@@ -1098,6 +1113,10 @@ def step (cx : Ctx) (w : World) (ws : List String) : StepOut :=
   | none =>
   match ws with
   | ["tnew", r] => stepCore cx w ["new", r]
+  -- an iterator whose size_hint promises fewer items than it yields: the generated `Extend` / `FromIterator` are push loops,
+  -- what the iterator promises does not matter
+  | ["extend_lo", r, ts, _] => stepCore cx w ["extend", r, ts]
+  | ["collect_lo", r, ts, _] => stepCore cx w ["collect", r, ts]
   | ["treserve", r, n] => stepCore cx w ["reserve", r, n]
   | ["treserve_exact", r, n] => stepCore cx w ["reserve_exact", r, n]
   | ["tshrink_to_fit", r] => stepCore cx w ["shrink_to_fit", r]
@@ -1187,6 +1206,7 @@ def capUpdate (cx : Ctx) (w w' : World) (ws : List String) (ok : Bool) : List Ca
   let keep (r : Nat) : List Cap.St := set w.caps r ((get r).setLen (lenOf w' r))
   let op := ((ws.headD "").dropWhile (· == 't')).toString
   let op := if op == "runcate" || op.startsWith "o_vec" then "t" ++ op else op
+  let op := if op == "extend_lo" then "extend" else if op == "collect_lo" then "collect" else op
   let reg (i : Nat) : Nat := ((ws.getD i "").drop 1).toString.toNat?.getD 0
   let num (i : Nat) : Nat := (ws.getD i "").toNat?.getD 0
   if op == "unwind_drop" then set w.caps (reg 1) fresh else
